@@ -107,7 +107,9 @@ Open(s, a, op) ==
          ELSE LET k == RawHash[op.n] % a.bc IN [s EXCEPT !.pc = "walk", !.b = k, !.cur = SlotPtr(a, k)]
   ELSE [s EXCEPT !.pc = "walk", !.b = 0, !.cur = IF a.bc = 0 /\ op.k = "verify" THEN "nil" ELSE SlotPtr(a, 0)]
 
-(* find, l. 496-516, followed by the fetch of the data, l. 230 *)
+(* find, l. 496-516, followed by the fetch of the data, l. 230.  The replay runs every find twice: on a fresh handle,   *)
+(* and on a handle through which an object has just been appended (Storage::write re-maps the file; the reader must   *)
+(* see the same bytes and apply the same bounds either way) *)
 FindStep(s, a, op) ==
   IF s.cur = "nil" THEN End(s, "ok")                                          \* not found
   ELSE IF s.cur \in s.seen THEN Revisit(s)
